@@ -120,7 +120,7 @@ impl Check for DistributorHistory {
             .boxed()
     }
     fn cases(&self, tier: Tier) -> u32 {
-        tier.pick(16_000, 1_000_000)
+        tier.pick(16_000, 700_000)
     }
     fn min_nontrivial(&self) -> f64 {
         0.02
